@@ -217,6 +217,15 @@ func variants(a *ref.ASpec, dir string, idx int) []variant {
 				return s, err
 			}, true)...)
 		}
+		// ... and a JSON file that begins with white space or a byte order mark is still JSON
+		for k, prefix := range []string{"\n  \t", "\xef\xbb\xbf", "\r\n"} {
+			path := filepath.Join(dir, fmt.Sprintf("spec-%d-%s-lead%d.json", idx, tag, k))
+			os.WriteFile(path, []byte(prefix+jsdoc), 0644)
+			vs = append(vs, compileModes(fmt.Sprintf("sio-url-json-leading-%d-%s", k, tag), func() (*core.Spec, error) {
+				_, s, err := sio.ResolveSpecSource(context.Background(), &crew.SpecSource{URL: "file://" + path})
+				return s, err
+			}, true)[:1]...)
+		}
 		// sio's inline loader
 		vs = append(vs, compileModes("sio-inline-"+tag, func() (*core.Spec, error) {
 			var s core.Spec
@@ -319,7 +328,7 @@ var shapes = []interface{}{
 
 func Run(cfg fw.Config, rec *fw.Rec) {
 	rec.Rule = "each abstract spec (random node graph, guards, actions, all error settings, plus a start node whose message-branch patterns cover every JSON shape at the top level: map, array, bare string, bare variable, number, boolean, null, property variable) is rendered as Go structures, JSON, YAML via jsccast/yaml, and through sio's URL loader (YAML and JSON files) and inline loader, each with inline patterns and with JSON-text patterns under patternSyntax json, each compiled once / three times / compiled-serialised-reloaded-compiled (42 variants incl. Go structures whose inline patterns are typed Go containers such as map[string]string, []string, []int), and with every name the standard interpreter map offers for the ECMAScript interpreter ('', ecmascript, ecmascript-5.1, ecmascript-ext, ecmascript-5.1-ext, goja), compiled with that map, once and reloaded (12 more); all must compile and give identical traces on shared message sequences; unknown interpreter (also: a name only the standard map knows, compiled with the default interpreters; an unknown name with the standard map) / pattern syntax / branching type must fail at Compile; non-trivial = spec whose trace has >= 3 strides; distinct by spec"
-	rec.Required = []string{"variants_agree", "negative_unknown_interpreter", "negative_standard_only_name_with_default_interpreters", "negative_unknown_interpreter_with_standard_map", "negative_unknown_pattern_syntax", "negative_unknown_branching_type", "string_pattern_as_json_text", "traces_with_scalar_messages"}
+	rec.Required = []string{"variants_agree", "negative_unknown_interpreter", "negative_standard_only_name_with_default_interpreters", "negative_unknown_interpreter_with_standard_map", "negative_unknown_pattern_syntax", "negative_unknown_pattern_syntax_without_patterns", "spec_repaired_after_a_failed_compile_equals_clean", "negative_unknown_branching_type", "string_pattern_as_json_text", "traces_with_scalar_messages"}
 	rec.Assume = []string{"specs are deterministic", "the YAML rendering is block style with JSON flow scalars/collections for patterns"}
 	n := cfg.Pick(400, 20000)
 	fw.Parallel(cfg.Workers, n, func(w, i int) {
@@ -463,6 +472,62 @@ func Run(cfg fw.Config, rec *fw.Rec) {
 			}
 			return false
 		})
+		// ... also when the spec has no pattern that could be parsed
+		{
+			s := &core.Spec{Name: "no-patterns", PatternSyntax: "no-such-syntax", Nodes: map[string]*core.Node{"start": {}}}
+			err := s.Compile(context.Background(), nil, true)
+			rec.Eval(1)
+			if err == nil {
+				rec.Violation("C13:accepted-at-compile:unknown_pattern_syntax_without_patterns", "a spec without patterns and with an unknown pattern syntax compiles without error (its syntax now reads "+fmt.Sprintf("%q", s.PatternSyntax)+")", "spec without patterns")
+			} else {
+				rec.Bucket("negative_unknown_pattern_syntax_without_patterns")
+			}
+		}
+		// a compilation that fails part way must leave the spec as it was: once the bad
+		// pattern is repaired it compiles to the same machine as a spec that was never broken
+		if i%4 == 0 {
+			mk := func(broken bool) *core.Spec {
+				s := a.Core(false, ref.NativeNilErr)
+				s.PatternSyntax = "json"
+				for _, n := range s.Nodes {
+					if n.Branches != nil {
+						for _, b := range n.Branches.Branches {
+							if b.Pattern != nil {
+								js, _ := json.Marshal(b.Pattern)
+								b.Pattern = string(js)
+							}
+						}
+					}
+				}
+				// string-literal patterns (JSON text of a JSON string) and, if broken, one that does not parse
+				s.Nodes["zz_lit"] = &core.Node{Branches: &core.Branches{Type: "message", Branches: []*core.Branch{
+					{Pattern: `"\"1\""`, Target: "start"}, {Pattern: `"lit"`, Target: "start"}}}}
+				s.Nodes["aa_lit"] = &core.Node{Branches: &core.Branches{Type: "message", Branches: []*core.Branch{
+					{Pattern: `"\"2\""`, Target: "start"}}}}
+				bad := `{"ok":1}`
+				if broken {
+					bad = `{"not json`
+				}
+				s.Nodes["mm_bad"] = &core.Node{Branches: &core.Branches{Type: "message", Branches: []*core.Branch{{Pattern: bad, Target: "start"}}}}
+				return s
+			}
+			clean, repaired := mk(false), mk(true)
+			e0 := clean.Compile(context.Background(), nil, true)
+			e1 := repaired.Compile(context.Background(), nil, true)
+			if e0 == nil && e1 != nil {
+				repaired.Nodes["mm_bad"].Branches.Branches[0].Pattern = `{"ok":1}`
+				e2 := repaired.Compile(context.Background(), nil, true)
+				rec.Eval(3)
+				pat := func(s *core.Spec) string {
+					return fw.Canon([]interface{}{s.Nodes["zz_lit"].Branches.Branches[0].Pattern, s.Nodes["zz_lit"].Branches.Branches[1].Pattern, s.Nodes["aa_lit"].Branches.Branches[0].Pattern, s.Nodes["mm_bad"].Branches.Branches[0].Pattern})
+				}
+				if e2 != nil || pat(clean) != pat(repaired) {
+					rec.Violation("C13:repaired-spec-differs", fmt.Sprintf("a spec whose compilation failed (one pattern was not JSON) and that was then repaired compiles to patterns %s (error %v); the same spec never broken compiles to %s", pat(repaired), e2, pat(clean)), replay)
+				} else {
+					rec.Bucket("spec_repaired_after_a_failed_compile_equals_clean")
+				}
+			}
+		}
 		neg("unknown_branching_type", func(s *core.Spec) bool {
 			for _, nm := range a.NodeNames() {
 				if n := s.Nodes[nm]; n.Branches != nil {
